@@ -20,6 +20,7 @@ A_STORE = [
 ]
 
 NODE = P + "node."
+OK_ALL = ["ok " + t for t in ("transfer", "staking", "unstaking", "proposal", "voting", "setdoc", "withdraw")]
 TXB = 'genesis: 3 funded accounts (symbolic balances < 2^100), validators A0,A1 (symbolic power), symbolic governance parameters; 2 empty blocks; prelude block (proposal by A0 / reward issuance to A0 where the tx type needs it); then ONE transaction of each of the 7 native types with sender in {A0,A1,A2}, type-specific receivers (incl. zero address / account-less address), symbolic amount < 2^101, gas < 2^42, nonce in [0,3], gas price in {governance price, +1}'
 
 CHECKS = {
@@ -42,7 +43,7 @@ CHECKS = {
     },
     "C02": {
         "quick": [
-            {"name": NODE + "ZZ_C02_V1", "reach": ["V1 end"], "bound": TXB + "; block with / without proposer; EndBlock"},
+            {"name": NODE + "ZZ_C02_V1", "reach": ["V1 end"] + OK_ALL, "bound": TXB + "; block with / without proposer; EndBlock"},
             {"name": STAKE + "ZZ_C11_B3", "reach": ["B3 end"], "bound": "3 staking/unstaking transactions in one block on one delegatee (delete / re-create / modify): every stake stays recorded exactly once with its power (value not destroyed)"},
             {"name": STAKE + "ZZ_C12_O3", "reach": ["O3 end"], "bound": "refund of <=3 matured unbonding stakes: owners credited exactly power x 10^18"},
             {"name": STAKE + "ZZ_C12_O4", "reach": [], "bound": "two genesis stakes unbonding (known finding C12-K1: one refund lost)"},
@@ -53,7 +54,8 @@ CHECKS = {
     },
     "C03": {
         "quick": [
-            {"name": NODE + "ZZ_C03_I23", "reach": ["I23 success", "I23 forged rejected", "I23 honest failure"], "bound": TXB + "; signature: honest | signed by another key | signed for another chain id | one of 8 fields (amount, nonce, gas, receiver, time, version, sender, payload/gas price) altered after signing"},
+            {"name": P + "ctrlers/types.ZZ_C03_I1", "reach": ["I1 equal encodings", "I1 different encodings"], "bound": "two symbolic transactions of the same type (8 types): all numeric fields symbolic over their full range (incl. every payload field), byte/string fields drawn from two values; equal signed encodings => equal fields"},
+            {"name": NODE + "ZZ_C03_I23", "reach": ["I23 success", "I23 forged rejected", "I23 honest failure"] + OK_ALL, "bound": TXB + "; signature: honest | signed by another key | signed for another chain id | one of 8 fields (amount, nonce, gas, receiver, time, version, sender, payload/gas price) altered after signing"},
         ],
         "bounds": "one transaction; 8 single-field alterations; the RLP encoding is modelled as an injective function of the struct the repository hands to rlp.Encode (its own narrowing casts are executed)",
         "outside": "the cryptography itself (A-SIG); injectivity of go-ethereum's RLP for the encoded struct (A-CODEC); CheckTx (does not verify signatures by design and has no effects - C06)",
@@ -61,7 +63,7 @@ CHECKS = {
     },
     "C04": {
         "quick": [
-            {"name": NODE + "ZZ_C04_N12", "reach": ["N12 success", "N12 failure"], "bound": TXB + "; on success the same bytes are delivered again in the same block or in the next block"},
+            {"name": NODE + "ZZ_C04_N12", "reach": ["N12 success", "N12 failure"] + OK_ALL, "bound": TXB + "; on success the same bytes are delivered again in the same block or in the next block"},
         ],
         "bounds": "one transaction + one replay",
         "outside": "contract transactions (nonce handled inside the EVM: decided under C17 when registered); exactly-once over arbitrary histories follows from N1 (a nonce only ever rises by one on success) and is cross-checked by the replay",
@@ -69,7 +71,7 @@ CHECKS = {
     },
     "C05": {
         "quick": [
-            {"name": NODE + "ZZ_C05_A1", "reach": ["A1 failure", "A1 success"], "bound": TXB + "; after a failing tx every balance/nonce/name/doc/code marker of 5 accounts, bonded and unbonding stakes, rewards, the tracked proposal and the fee sum are compared, then an observer transfer A2->A1 with symbolic amount runs in the same block"},
+            {"name": NODE + "ZZ_C05_A1", "reach": ["A1 failure", "A1 success"] + ["rejected " + t for t in ("transfer", "staking", "unstaking", "proposal", "voting", "setdoc", "withdraw")], "bound": TXB + "; after a failing tx every balance/nonce/name/doc/code marker of 5 accounts, bonded and unbonding stakes, rewards, the tracked proposal and the fee sum are compared, then an observer transfer A2->A1 with symbolic amount runs in the same block"},
         ],
         "bounds": "one failing transaction of a native type (every error return reachable from DeliverTx for these inputs) + one observer transaction",
         "outside": "contract storage/code (A-EVM); an empty receiver account created by a failing tx is equal to no account under the abstraction absent == zero balance/nonce, no name/doc/code",
@@ -77,7 +79,7 @@ CHECKS = {
     },
     "C16": {
         "quick": [
-            {"name": NODE + "ZZ_C16_F12", "reach": ["F12 success", "F12 failure"], "bound": TXB + "; EndBlock with proposer A1"},
+            {"name": NODE + "ZZ_C16_F12", "reach": ["F12 success", "F12 failure"] + OK_ALL, "bound": TXB + "; EndBlock with proposer A1"},
         ],
         "bounds": "one native transaction + block end",
         "outside": "contract transactions (gas used by the EVM: C17); a governance price change between blocks (C15/G6 shows parameters switch only at Commit)",
@@ -87,8 +89,10 @@ CHECKS = {
         "quick": [
             {"name": NODE + "ZZ_C09_P1small", "reach": ["P1 end"], "bound": "one hostile transaction (garbage bytes | empty | TrxProto with type 0..9, sender in {known, unknown, 19 bytes}, receiver in {known, 21 bytes, zero}, payload in {absent, garbage, boundary-valued message}, symbolic amount/gas/nonce/time/price, signature in {garbage, genuine}) to DeliverTx or CheckTx; then a well-formed transfer, EndBlock, Commit", "validate": 6},
             {"name": NODE + "ZZ_C09_P2", "reach": ["P2 end"], "bound": "one Query: 11 paths x data length in {0,19,20,32,39,40,41} (vm_call: < 40 only) x height in [-2,5]; then an empty block"},
+            {"name": NODE + "ZZ_C09_P3", "reach": ["P3 end"], "bound": TXB + "; delivered in a block or sent to CheckTx", "validate": 6},
         ],
         "thorough": [
+            {"name": NODE + "ZZ_C09_P3", "reach": ["P3 end"], "bound": TXB + "; delivered in a block or sent to CheckTx"},
             {"name": NODE + "ZZ_C09_P1", "reach": ["P1 end"], "bound": "as P1small with 7 sender shapes x 7 receiver shapes x 3 signature shapes", "validate": 20},
             {"name": NODE + "ZZ_C09_P2", "reach": ["P2 end"], "bound": "as quick"},
         ],
